@@ -26,6 +26,11 @@ type c15Case struct {
 	DirC   bool         `json:"dirc,omitempty"`
 	Repl   bool         `json:"repl,omitempty"`
 	Wild   bool         `json:"wild,omitempty"`
+	// Exclude: exclude patterns (literal source paths); only "destination entries at paths the copy does not
+	// select stay" is judged for these cases
+	Exclude []string `json:"exclude,omitempty"`
+	// Follow: FollowLinks with a source argument that is a symlink inside the source root
+	Follow bool `json:"follow,omitempty"`
 }
 
 func shapeOf(t fsmodel.Tree) string {
@@ -44,7 +49,11 @@ func shapeOf(t fsmodel.Tree) string {
 }
 
 func (c c15Case) String() string {
-	return fmt.Sprintf("src=%s dst=%s Copy(%q -> %q) dircontents=%v always-replace=%v wildcards=%v", shapeOf(c.Src), shapeOf(c.Dst), c.SrcArg, c.DstArg, c.DirC, c.Repl, c.Wild)
+	s := fmt.Sprintf("src=%s dst=%s Copy(%q -> %q) dircontents=%v always-replace=%v wildcards=%v", shapeOf(c.Src), shapeOf(c.Dst), c.SrcArg, c.DstArg, c.DirC, c.Repl, c.Wild)
+	if len(c.Exclude) > 0 || c.Follow {
+		s += fmt.Sprintf(" exclude=%q follow-links=%v", c.Exclude, c.Follow)
+	}
+	return s
 }
 
 // ---- executable overlay model, written from the property text ----
@@ -256,7 +265,7 @@ func argTouchesSymlink(t fsmodel.Tree, arg string) bool {
 }
 
 func runCopy(c c15Case, srcDir, dstDir string) error {
-	ci := fscopy.CopyInfo{CopyDirContents: c.DirC, AlwaysReplaceExistingDestPaths: c.Repl, AllowWildcards: c.Wild}
+	ci := fscopy.CopyInfo{CopyDirContents: c.DirC, AlwaysReplaceExistingDestPaths: c.Repl, AllowWildcards: c.Wild, ExcludePatterns: c.Exclude, FollowLinks: c.Follow}
 	return fscopy.Copy(context.Background(), srcDir, c.SrcArg, dstDir, c.DstArg, fscopy.WithCopyInfo(ci))
 }
 
@@ -273,7 +282,52 @@ func judgeC15(c c15Case) (string, string) {
 		return "infra", err.Error()
 	}
 	before, _ := fsmodel.Snapshot(dstDir)
-	want, cf, inval := copyModel(c, before)
+	if len(c.Exclude) > 0 {
+		// whatever else happens (the call may fail on a conflict elsewhere): a destination entry at a path whose
+		// source entry the patterns leave out is not the copy's to touch
+		runCopy(c, srcDir, dstDir)
+		after, serr := fsmodel.Snapshot(dstDir)
+		if serr != nil {
+			return "infra", serr.Error()
+		}
+		for _, e := range c.Exclude {
+			if c.Src.Find(e) == nil {
+				continue
+			}
+			dirsAbove := true
+			for q := parentOf(e); q != ""; q = parentOf(q) {
+				if n := before.Find(q); n == nil || n.Kind != fsmodel.Dir {
+					dirsAbove = false
+				}
+			}
+			if !dirsAbove {
+				continue
+			}
+			for _, b := range before.Under(e) {
+				a := after.Find(b.Path)
+				if a == nil || a.Kind != b.Kind || string(a.Data) != string(b.Data) || a.Link != b.Link || a.Ino != b.Ino {
+					return "excluded-path-touched", fmt.Sprintf("%q is left out by the exclude patterns, but the destination entry %s was %v and is now %v", e, b.Path, b, a)
+				}
+			}
+		}
+		return "", ""
+	}
+	modelCase := c
+	if c.Follow {
+		// the argument is a link inside the source root: what it points to is copied under the argument's name
+		arg := strings.Trim(path.Clean("/"+c.SrcArg), "/")
+		if n := c.Src.Find(arg); n != nil && n.Kind == fsmodel.Symlink {
+			tgt := strings.Trim(path.Clean("/"+path.Join(path.Dir(arg), n.Link)), "/")
+			derived := removeSub(c.Src.Clone(), arg)
+			for _, m := range c.Src.Under(tgt) {
+				m.Path = arg + strings.TrimPrefix(m.Path, tgt)
+				derived = append(derived, m)
+			}
+			derived.Sort()
+			modelCase.Src = derived
+		}
+	}
+	want, cf, inval := copyModel(modelCase, before)
 	err := runCopy(c, srcDir, dstDir)
 	after, serr := fsmodel.Snapshot(dstDir)
 	if serr != nil {
@@ -312,7 +366,7 @@ func judgeC15(c c15Case) (string, string) {
 		return "overlay-differs", fmt.Sprintf("destination is %s, overlay model gives %s", shapeOf(after), shapeOf(want))
 	}
 	// repeating the copy: again the model, and nothing changes when the targets are the same
-	want2, cf2, _ := copyModel(c, after)
+	want2, cf2, _ := copyModel(modelCase, after)
 	err2 := runCopy(c, srcDir, dstDir)
 	after2, _ := fsmodel.Snapshot(dstDir)
 	if cf2 != nil {
@@ -426,6 +480,38 @@ func runC15(r *evid.Run) {
 							}
 						}
 						cases = append(cases, c)
+					}
+				}
+			}
+		}
+	}
+	// exclude patterns that leave out one existing source entry, against every destination
+	for _, sct := range srcs {
+		for _, n := range sct {
+			for _, d := range dsts {
+				if d.Find(n.Path) == nil {
+					continue
+				}
+				for o := 0; o < 4; o++ {
+					cases = append(cases, c15Case{Src: sct, Dst: d, SrcArg: "/", DstArg: "/", DirC: o&1 != 0, Repl: o&2 != 0, Exclude: []string{n.Path}})
+				}
+			}
+		}
+	}
+	// follow-links with a source argument that is a link to a directory / to a file with another base name
+	{
+		T := fsmodel.T0
+		fl := fsmodel.Tree{{Path: "x", Kind: fsmodel.Dir, Perm: 0755, Mtime: T}, {Path: "x/y", Kind: fsmodel.File, Perm: 0644, Mtime: T + 1, Data: []byte("S:x/y")},
+			{Path: "w", Kind: fsmodel.Symlink, Perm: 0777, Mtime: T + 2, Link: "x"}, {Path: "v", Kind: fsmodel.Symlink, Perm: 0777, Mtime: T + 3, Link: "x/y"}}
+		fl.Sort()
+		for _, d := range dsts {
+			for _, sa := range []string{"w", "v"} {
+				for _, da := range dstArgs {
+					for o := 0; o < 4; o++ {
+						if argTouchesSymlink(d, da) {
+							continue
+						}
+						cases = append(cases, c15Case{Src: fl, Dst: d, SrcArg: sa, DstArg: da, DirC: o&1 != 0, Repl: o&2 != 0, Follow: true})
 					}
 				}
 			}
